@@ -329,6 +329,12 @@ def differences(p, n, path='', out=None, binds=None):
                     out.append(('operator-added', p, n, path, 'extra operator %s: expected `%s`, found `%s`'
                                 % (type(n.op).__name__, unparse(p), unparse(n))))
                     return out
+        if isinstance(p, ast.Call) and not isinstance(n, ast.Call):
+            for a in p.args:
+                if Matcher().match(a, n, dict(binds)) is not None:
+                    out.append(('call-dropped', p, n, path, 'call of %s(...) dropped: expected `%s`, found `%s`'
+                                % (callee_name(p), unparse(p), unparse(n))))
+                    return out
         if isinstance(p, ast.BoolOp) and not isinstance(n, ast.BoolOp):
             for v in p.values:
                 if Matcher().match(v, n, dict(binds)) is not None:
@@ -460,7 +466,7 @@ def _bool_leaves(e):
 
 
 DEFINITE = {'literal', 'sign', 'negation', 'operator-dropped', 'operator-added', 'conjunct-dropped',
-            'conjunct-added', 'comparison', 'operator', 'role-swap', 'and-or', 'callee'}
+            'conjunct-added', 'comparison', 'operator', 'role-swap', 'and-or', 'callee', 'call-dropped'}
 
 
 def classify(p, n, binds=None):
